@@ -1,5 +1,6 @@
 //! An independent recording `Serializer`: captures the data-model call tree of any `Serialize`.
-//! Reports is_human_readable() == false exactly as postcard does.
+//! Reports for is_human_readable() what the real postcard serializer reports (asked once), so that the
+//! recorded tree is what the type's Serialize impl does *under postcard*.
 
 use serde::ser::{self, Serialize};
 use std::fmt::Display;
@@ -127,7 +128,11 @@ impl ser::Serializer for Recorder {
     type SerializeStructVariant = StructVarRec;
 
     fn is_human_readable(&self) -> bool {
-        false
+        static HR: std::sync::OnceLock<bool> = std::sync::OnceLock::new();
+        *HR.get_or_init(|| {
+            let mut real = postcard::Serializer { output: postcard::ser_flavors::AllocVec::new() };
+            serde::Serializer::is_human_readable(&&mut real)
+        })
     }
     fn serialize_bool(self, v: bool) -> Result<Rec, RecErr> {
         Ok(Rec::Bool(v))
